@@ -23,6 +23,8 @@ pub fn node_id(i: usize) -> String {
     // ids with '/', '.', '-' — different lengths so that prefix confusion would show
     match i % 4 {
         0 => format!("acme/n{i}"),
+        // node 5 is "N1": it differs from node 1 ("n1") only in letter case
+        1 if i >= 4 => format!("N{}", i - 4),
         1 => format!("n{i}"),
         2 => format!("acme/sub/n{i}.x"),
         _ => format!("n{i}-bp"),
